@@ -17,6 +17,7 @@ from scipy.special import erf, logsumexp
 from scipy.stats import t as student_t
 
 import common
+import runs
 
 THEOREMS = ['C04_partition', 'C04_shell_unbiased', 'C04_Z_unbiased', 'C04_weights_consistent', 'C04_volumes_sum_to_one']
 MODULE = 'NautilusVerif.Properties.C04'
@@ -68,18 +69,6 @@ def ll_edge(x):
     return float(-0.5 * (x[0] / 0.1) ** 2 - 0.5 * np.sum(((x[1:] - 0.5) / 0.1) ** 2))
 
 
-class PicklePool:
-    """an in-process stand-in for a process pool: every task is pickled and unpickled as multiprocessing does, so that the
-    workers act on copies (the pool branch of NautilusBound.sample merges the counters of those copies)"""
-
-    def __init__(self, size):
-        self.size = size
-
-    def map(self, func, iterable):
-        import pickle
-        return [pickle.loads(pickle.dumps(pickle.loads(pickle.dumps(func))(pickle.loads(pickle.dumps(a))))) for a in iterable]
-
-
 def family(name, d):
     if name == 'ramp90':    # the zero-likelihood plateau fills whole shells; the other coordinates are unconstrained
         return ll_ramp90, np.log(0.005), None, None
@@ -114,9 +103,13 @@ def one_run(job):
     if periodic is not None:
         kw['periodic'] = np.array(periodic)
     if name == 'edge':
-        kw['pool'] = (None, PicklePool(2))
-    s = Sampler(lambda x: x, ll, **kw)
-    s.run(n_eff=n_eff, discard_exploration=discard)
+        kw['pool'] = (None, runs.PicklePool(2))
+    try:
+        with common.time_limit(1200):
+            s = Sampler(lambda x: x, ll, **kw)
+            s.run(n_eff=n_eff, discard_exploration=discard)
+    except Exception as e:
+        return {'error': '%s: %s' % (type(e).__name__, str(e)[:120]), 'job': list(job)}
     pts, log_w, _ = s.posterior()
     w = np.exp(log_w)
     out = {'t': float((s.log_z - log_z) * np.sqrt(s.n_eff)), 'dlogz': float(s.log_z - log_z), 'n_eff': float(s.n_eff),
@@ -142,8 +135,14 @@ def run(chk):
     with mp.get_context('fork').Pool(min(16, os.cpu_count() or 4)) as pool:
         res = pool.map(one_run, jobs, chunksize=1)
     stats_list = []
+    for r in res:
+        if 'error' in r:
+            chk.fail('run-fails:' + r['error'].split(':')[0], 'a run of the ensemble raised or did not end: %s (family %s, d=%d, seed %d)' % (
+                r['error'], r['job'][0], r['job'][1], r['job'][2]), {'input': {'job': r['job']}})
     for fi, (name, d, nets) in enumerate(fams):
-        rs = res[fi * n:(fi + 1) * n]
+        rs = [r for r in res[fi * n:(fi + 1) * n] if 'error' not in r]
+        if len(rs) < 3:
+            continue
         series = {'evidence-bias': np.array([r['t'] for r in rs]), 'shell-volumes-sum': np.array([r['vol'] for r in rs])}
         if 'dmean' in rs[0]:
             dm = np.array([r['dmean'] for r in rs])
@@ -171,7 +170,7 @@ def run(chk):
     chk.cov['rule'] = ('model-validation ensemble (not the proof): evaluations = independent seeded runs (n_live=300, n_eff=2000, exploration '
                        'discarded) of likelihood families with closed-form evidence; per family Student-t tests across seeds of the evidence offset '
                        'in units of the reported error, of the posterior mean and of the summed shell volumes; every run is non-trivial')
-    chk.sample({'families': fams, 'seeds_per_family': n, 'example': res[0]})
+    chk.sample({'families': fams, 'seeds_per_family': n, 'example': next((r for r in res if 'error' not in r), None)})
     chk.assumptions += ['partial: unbiasedness is proved for the modelled estimator; convergence (adequate live points per mode), float rounding and '
                         'PRNG quality are validated by the ensemble only; power: the quick tier (48 seeds, critical |t| about 8) sees offsets of about 1.2 reported sigma (~2.6 % in Z), '
                         'the thorough tier (192 seeds) about 0.55 sigma (~1.2 % in Z)']
